@@ -82,11 +82,11 @@ class SymArr(np.ndarray):
 
 
 def zero_of(kind):
-    return {"real": Poly.const(0), "complex": SC(0, 0), "quat": SQ(0, 0, 0, 0)}[kind]
+    return {"real": Poly.const(0), "int": Poly.const(0), "complex": SC(0, 0), "quat": SQ(0, 0, 0, 0)}[kind]
 
 
 def one_of(kind):
-    return {"real": Poly.const(1), "complex": SC(1, 0), "quat": SQ(1, 0, 0, 0)}[kind]
+    return {"real": Poly.const(1), "int": Poly.const(1), "complex": SC(1, 0), "quat": SQ(1, 0, 0, 0)}[kind]
 
 
 def mk(shape, kind="real", fill=None, sparse=False):
@@ -193,13 +193,20 @@ def wrap(a, kind=None, sparse=False):
 
 
 def combine_kind(*vals):
-    order = {"real": 0, "complex": 1, "quat": 2}
-    best = "real"
+    """kind of the result of arithmetic: int < real < complex < quat ('int' models fixed-width integer arrays, e.g.
+    uint8 images: arithmetic between them stays integer and may wrap around)"""
+    order = {"int": -1, "real": 0, "complex": 1, "quat": 2}
+    best = None
     for v in vals:
-        k = v.kind if isinstance(v, SymArr) else kind_of_value(v)
-        if order[k] > order[best]:
+        if isinstance(v, SymArr):
+            k = v.kind
+        elif isinstance(v, (int, np.integer)) and not isinstance(v, bool):
+            k = "int"
+        else:
+            k = kind_of_value(v)
+        if best is None or order[k] > order[best]:
             best = k
-    return best
+    return best or "real"
 
 
 class Namespace:
@@ -223,6 +230,7 @@ class SymDomain(BaseDomain):
         self.sparse = self._make_sparse()
         self.scipy_linalg = Namespace("scipy.linalg", qr=self.la_qr)
         self.events = []
+        self.divisions = []
         self._cur_node = None
 
     # ---------------------------------------------------------------- modules
@@ -275,7 +283,7 @@ class SymDomain(BaseDomain):
             transpose=lambda a, axes=None: wrap(np.transpose(wrap(a), axes), wrap(a).kind),
             moveaxis=lambda a, s, t: wrap(np.moveaxis(wrap(a), s, t), wrap(a).kind),
             swapaxes=lambda a, s, t: wrap(np.swapaxes(wrap(a), s, t), wrap(a).kind),
-            reshape=lambda a, shape, **k: wrap(np.reshape(wrap(a), shape), wrap(a).kind),
+            reshape=lambda a, shape, order="C", **k: wrap(np.reshape(wrap(a), shape, order=order), wrap(a).kind),
             ravel=lambda a: wrap(np.ravel(wrap(a)), wrap(a).kind),
             conjugate=d.np_conj, conj=d.np_conj, real=d.np_real, imag=d.np_imag,
             sum=d.np_sum, prod=d.np_prod, sqrt=d.f_sqrt, abs=d.np_abs, absolute=d.np_abs,
@@ -368,7 +376,7 @@ class SymDomain(BaseDomain):
         if kind == a.kind:
             return a.copy()
         out = mk(a.shape, kind)
-        conv = {"quat": SQ.lift, "complex": SC.lift, "real": lambda v: v}[kind]
+        conv = {"quat": SQ.lift, "complex": SC.lift, "real": lambda v: v, "int": lambda v: v}[kind]
         of, af = out.reshape(-1), a.reshape(-1)
         for i in range(af.size):
             of[i] = conv(af[i])
@@ -840,6 +848,9 @@ class SymDomain(BaseDomain):
         return super().hasattr(v, name)
 
     def binop(self, interp, op, a, b, node):
+        if op is operator.truediv and interp is not None and isinstance(b, (Poly, SymArr)):
+            # log divisions by symbolic scalars together with the number of decisions taken so far (zero-divisor rules)
+            self.divisions.append((b, node, interp.where(node), len(interp.decision_log)))
         if isinstance(a, np.integer):
             a = int(a)
         if isinstance(b, np.integer):
@@ -847,6 +858,10 @@ class SymDomain(BaseDomain):
         if op is operator.matmul:
             return self.matmul(a, b)
         if isinstance(a, SymArr) or isinstance(b, SymArr):
+            if op in (operator.pow, operator.mul, operator.add, operator.sub) and combine_kind(a, b) == "int" \
+                    and interp is not None:
+                # arithmetic carried out in a fixed-width integer dtype (may wrap around): recorded for the rules
+                self.events.append(("int-arith", op.__name__, interp.where(node)))
             aa = np.asarray(a, dtype=object) if isinstance(a, SymArr) else a
             bb = np.asarray(b, dtype=object) if isinstance(b, SymArr) else b
             if isinstance(aa, (list, tuple)):
@@ -969,13 +984,14 @@ class SymDomain(BaseDomain):
             def reshape(*shape, **k):
                 if len(shape) == 1 and isinstance(shape[0], (tuple, list)):
                     shape = tuple(shape[0])
+                order = k.get("order", "C")      # 'A' / 'K' follow the MEMORY layout of the array (numpy semantics kept)
                 try:
-                    return SymArr(np.asarray(a, dtype=object).reshape(tuple(int(s) for s in shape)), a.kind)
+                    return SymArr(np.asarray(a, dtype=object).reshape(tuple(int(s) for s in shape), order=order), a.kind)
                 except ValueError as e:
                     raise ModelError(str(e))
             return reshape
         if attr in ("flatten", "ravel"):
-            return lambda *x: SymArr(np.asarray(a, dtype=object).reshape(-1).copy(), a.kind)
+            return lambda order="C": SymArr(np.asarray(a, dtype=object).ravel(order=order).copy(), a.kind)
         if attr == "transpose":
             return lambda *axes: SymArr(np.asarray(a, dtype=object).transpose(*axes), a.kind, a.sparse)
         if attr == "swapaxes":
